@@ -446,8 +446,16 @@ class ConfigLoader(BaseLoader):
 
     def includeConfiguration(self, section, url, defines):
         url = self.normalizeURL(url)
-        with self.openResource(url) as r:
-            self._parse_resource(section, r, defines)
+        including = self.__dict__.setdefault('_including', [])
+        if url in including:
+            raise ZConfig.ConfigurationError(
+                "recursive %include of " + url, url)
+        including.append(url)
+        try:
+            with self.openResource(url) as r:
+                self._parse_resource(section, r, defines)
+        finally:
+            including.pop()
 
     # internal helper
 
